@@ -84,3 +84,50 @@ func (op BlockOp) CaseIndex(send bool, pat P) int {
 
 // ctxDone matches <ctx>.Done() for any context value.
 func ctxDone() P { return Invoke("context.Context.Done") }
+
+// SendSite is a channel send (plain or as a select clause), lifted out of
+// unexported helpers: when the channel is a parameter of a helper all of whose
+// call sites are known, the site is reported once per call site, in the
+// caller's terms.
+type SendSite struct {
+	Fn       *ssa.Function   // function the send belongs to after lifting
+	At       ssa.Instruction // the send/select, or the helper call it was lifted to
+	Chan     *X
+	Val      *X
+	Pos      token.Pos
+	InSelect bool
+}
+
+func (c *Ctx) SendSites(rel string) []SendSite {
+	var out []SendSite
+	var lift func(s SendSite, d int)
+	lift = func(s SendSite, d int) {
+		ch := strip(s.Chan)
+		p, isParam := ch.V.(*ssa.Parameter)
+		if d < 2 && ch.Op == "param" && isParam && p.Parent() == s.Fn {
+			if sites, known := c.staticCallSites(s.Fn); known && len(sites) > 0 {
+				for _, site := range sites {
+					env := c.callEnv(site, s.Fn, nil)
+					lift(SendSite{Fn: site.Parent(), At: site, Chan: subst(s.Chan, env), Val: subst(s.Val, env), Pos: site.Pos(), InSelect: s.InSelect}, d+1)
+				}
+				return
+			}
+		}
+		out = append(out, s)
+	}
+	for _, f := range c.Funcs(rel) {
+		instrsDeep(f.SSA, func(g *ssa.Function, in ssa.Instruction) {
+			switch in := in.(type) {
+			case *ssa.Send:
+				lift(SendSite{Fn: g, At: in, Chan: c.E(in.Chan), Val: c.E(in.X), Pos: in.Pos()}, 0)
+			case *ssa.Select:
+				for _, st := range in.States {
+					if st.Send != nil {
+						lift(SendSite{Fn: g, At: in, Chan: c.E(st.Chan), Val: c.E(st.Send), Pos: in.Pos(), InSelect: true}, 0)
+					}
+				}
+			}
+		})
+	}
+	return out
+}
